@@ -136,6 +136,14 @@ unknown_field:
 			if (itr->_ftype != FieldTrait::ft_Length || tv == Common_BodyLength) // this type expects next field to be data
 				break;
 
+			// ...but only when the data field actually follows; a Length typed field can also stand alone (e.g. MaxMessageSize)
+			unsigned short ntv(0);
+			for (const char *np(dptr + s_offset); np < dptr + fsize && isdigit(*np); ++np)
+				ntv = ntv * 10 + (*np - '0');
+			Presence::const_iterator nitr(_fp.get_presence().find(ntv));
+			if (nitr == _fp.get_presence().end() || nitr->_ftype != FieldTrait::ft_data)
+				break;
+
 			const unsigned val_sz(fast_atoi<unsigned>(val));
 			if(val_sz > FIX8_MAX_FLD_LENGTH - 1)
 				throw f8Exception("Value size too large");
